@@ -14,6 +14,15 @@ Two machines share this check (the first field of a root spec selects one):
               written to (the chain's own list is).
     Depth 1 (quick); thorough also writes into everything again after each mutator (depth 2).
 
+(a') roots ("derive", family, ..., route) - the same machine with `c` = o reached through one of the public ROUTES that
+    derive a new landmark-carrying object from `o` (from_vector in every form and override, as_masked / as_unmasked,
+    as_pointgraph, copy-based convenience methods, the module-level copy_landmarks_and_path, the landmarks setter, the
+    from_vector based instance / mean / component / reconstruct / project_out of an instance-backed model, Transform.apply).
+    Oracle  : the source is not changed; the new object has its own manager and its own group objects; routes that carry
+              the landmarks over unchanged give landmarks equal to the source's, identity routes give an object equal to
+              o.copy() (route agreement); every write below `_landmarks` and every landmark mutator on either side is
+              invisible on the other.
+
 (b) roots ("lm", variant, shard, n_shards) - landmark-manager histories
     State   : owners P (2-D PointCloud), I (2-D Image), optionally X (an owner derived from P or I) and a
               detached manager M (result of manager.copy()); a pool of three external values
@@ -303,6 +312,8 @@ MODEL_LETTERS = [
     ("PCAModel", "pointcloud-trimmed"),
     ("PCAModel", "image"),
     ("PCAModel", "maskedimage"),
+    ("PCAModel", "maskedimage-lm"),
+    ("PCAModel", "maskedimage-alltrue-lm"),
 ]
 LAZY_LETTERS = ["empty", "plain3", "shapes2", "mapped", "sliced", "repeated", "index-callable"]
 EXTRA_TRANSFORMS = [
@@ -442,11 +453,16 @@ def build_model(spec, seed):
         samples[0].landmarks["t"] = PointCloud(r.rand(2, 2))
         return PCAModel(samples)
     mask = np.array([[True, False, True], [True, True, False]])
-    x = L.spectrum_data(4, 8, seed, ("c06", var), mean_scale=1.0)
+    if "alltrue" in var:
+        mask = np.ones((2, 3), dtype=bool)
+    x = L.spectrum_data(4, 2 * int(mask.sum()), seed, ("c06", var), mean_scale=1.0)
     samples = []
     for row in x:
         im = MaskedImage(np.zeros((2, 2, 3)), mask=mask.copy())
         samples.append(im.from_vector(row.copy()))
+    if var.endswith("-lm"):
+        samples[0].landmarks["t"] = PointCloud(r.rand(2, 2))
+        samples[0].landmarks["u"] = L.bare_shape("LabelledPointUndirectedGraph", 2, seed, ("c06-tmpl", var))
     return PCAModel(samples)
 
 
@@ -509,6 +525,163 @@ def build_letter(root, seed):
     if fam == "ro":
         return build_ro(root[2], seed)
     raise ValueError(root)
+
+
+# =================================================================================================
+# (a') public routes that derive a landmark-carrying object from another one
+# =================================================================================================
+def _vec(o):
+    return np.array(o.as_vector(), copy=True)
+
+
+def _other_vec(o):
+    v = _vec(o)
+    if v.dtype == bool:
+        return ~v
+    if v.dtype.kind in "iu":
+        return (v + 1).astype(v.dtype)
+    return (v * 0.5 + 0.25).astype(v.dtype)
+
+
+def _blank_like(o):
+    """a fresh landmark-free object of the same dimensionality (the target of the transfer routes)."""
+    from menpo.image import Image
+    from menpo.shape import PointCloud
+
+    if isinstance(o, Image):
+        return Image(np.zeros((1,) + tuple(o.shape)))
+    return PointCloud(np.zeros((2, o.n_dims)))
+
+
+def _is(o, *names):
+    return type(o).__name__ in names
+
+
+def _isa(o, name):
+    return any(c.__name__ == name for c in type(o).__mro__)
+
+
+Route = collections.namedtuple("Route", "name applies fn lm_equal identical")
+# lm_equal : the route carries the landmarks over unchanged;  identical : the whole result must equal o.copy()
+
+
+def _routes():
+    import menpo.transform as mt
+    from menpo.base import copy_landmarks_and_path
+    from menpo.image import BooleanImage
+
+    R = []
+
+    def add(name, applies, fn, lm_equal=True, identical=False):
+        R.append(Route(name, applies, fn, lm_equal, identical))
+
+    owner = lambda o: _isa(o, "PointCloud") or _isa(o, "Image")  # noqa
+    img = lambda o: _isa(o, "Image")  # noqa
+    shp = lambda o: _isa(o, "PointCloud")  # noqa
+    masked = lambda o: _isa(o, "MaskedImage")  # noqa
+    plain_img = lambda o: _is(o, "Image")  # noqa
+    # --- from_vector: generic (copy + in place), Image / MaskedImage / BooleanImage / TexturedTriMesh overrides
+    add("from_vector", owner, lambda o, k, s: o.from_vector(_vec(o)), identical=True)
+    add("from_vector(view)", owner, lambda o, k, s: o.from_vector(o.as_vector()), identical=True)
+    add("from_vector(new-values)", owner, lambda o, k, s: o.from_vector(_other_vec(o)))
+    add("from_vector(copy=False)", lambda o: _is(o, "Image", "BooleanImage"), lambda o, k, s: o.from_vector(_vec(o), copy=False), identical=True)
+    add(
+        "from_vector(n_channels)",
+        lambda o: _is(o, "Image", "MaskedImage"),
+        lambda o, k, s: o.from_vector(np.tile(_vec(o)[: _vec(o).shape[0] // o.n_channels], o.n_channels + 1), n_channels=o.n_channels + 1),
+    )
+    # --- conversions
+    add("as_masked", plain_img, lambda o, k, s: o.as_masked())
+    add("as_masked(mask)", plain_img, lambda o, k, s: o.as_masked(mask=BooleanImage(L.rs(s, "c06-asmask").rand(*o.shape) > 0.3)))
+    add("as_masked(copy=False)", plain_img, lambda o, k, s: o.as_masked(copy=False))
+    add("as_unmasked", masked, lambda o, k, s: o.as_unmasked())
+    add("as_unmasked(copy=False)", masked, lambda o, k, s: o.as_unmasked(copy=False))
+    add("as_unmasked(fill)", masked, lambda o, k, s: o.as_unmasked(fill=0))
+    add("as_pointgraph", lambda o: _isa(o, "TriMesh"), lambda o, k, s: o.as_pointgraph())
+    add("as_pointgraph(copy=False)", lambda o: _isa(o, "TriMesh"), lambda o, k, s: o.as_pointgraph(copy=False))
+    # --- transfer: module-level function and the property setter it wraps
+    add("copy_landmarks_and_path", owner, lambda o, k, s: copy_landmarks_and_path(o, _blank_like(o)))
+
+    def setter(o, k, s):
+        t = _blank_like(o)
+        t.landmarks = o.landmarks
+        return t
+
+    add("landmarks-setter", owner, setter)
+    # --- copy-based convenience methods (pixels / points change, landmarks are carried)
+    add("extract_channels", lambda o: _is(o, "Image", "MaskedImage"), lambda o, k, s: o.extract_channels(0))
+    add("as_greyscale", lambda o: _is(o, "Image", "MaskedImage") and o.n_channels > 1, lambda o, k, s: o.as_greyscale(mode="average"))
+    add("clip_pixels", lambda o: _is(o, "Image", "MaskedImage") and o.pixels.dtype.kind == "f", lambda o, k, s: o.clip_pixels(0.2, 0.8))
+    add("invert", lambda o: _is(o, "BooleanImage"), lambda o, k, s: o.invert())
+    add("erode", masked, lambda o, k, s: o.erode())
+    add("dilate", masked, lambda o, k, s: o.dilate())
+    add("set_boundary_pixels", masked, lambda o, k, s: o.set_boundary_pixels())
+    add("from_mask(all)", lambda o: _is(o, "PointCloud"), lambda o, k, s: o.from_mask(np.ones(o.n_points, dtype=bool)))
+    add("constrain_to_bounds", shp, lambda o, k, s: o.constrain_to_bounds(o.bounds(boundary=1.0)), identical=True)
+    add("clip_texture", lambda o: _is(o, "ColouredTriMesh", "TexturedTriMesh"), lambda o, k, s: o.clip_texture((0.2, 0.8)))
+    add("rescale_texture", lambda o: _is(o, "ColouredTriMesh", "TexturedTriMesh"), lambda o, k, s: o.rescale_texture(0.0, 2.0))
+    add("add_label", lambda o: _is(o, "LabelledPointUndirectedGraph"), lambda o, k, s: o.add_label("c06", [0, 1]))
+    add("remove_label", lambda o: _is(o, "LabelledPointUndirectedGraph"), lambda o, k, s: o.remove_label("mid"))
+    # --- a transform applied to the owner (copy + in place): the landmarks move with it
+    add("Translation.apply", shp, lambda o, k, s: mt.Translation(np.arange(1, o.n_dims + 1) * 0.5).apply(o), lm_equal=False)
+    # --- instance-backed model: everything it hands out is template_instance.from_vector(...)
+    model = lambda o: False  # noqa - model routes are selected by family, `o` is the template, `k` the model
+    add("model.mean", model, lambda o, k, s: k.mean())
+    add("model.instance", model, lambda o, k, s: k.instance(np.ones(k.n_active_components) * 0.1))
+    add("model.component", model, lambda o, k, s: k.component(0))
+    add("model.reconstruct", model, lambda o, k, s: k.reconstruct(o.from_vector(_other_vec(o))))
+    add("model.project_out", model, lambda o, k, s: k.project_out(o.from_vector(_other_vec(o))))
+    return collections.OrderedDict((r.name, r) for r in R)
+
+
+_ROUTES = {}
+
+
+def routes():
+    if not _ROUTES:
+        _ROUTES.update(_routes())
+    return _ROUTES
+
+
+DERIVE_MODELS = [("PCAModel", "pointcloud-lm"), ("PCAModel", "image"), ("PCAModel", "maskedimage-lm"), ("PCAModel", "maskedimage-alltrue-lm")]
+MODEL_ROUTES = ["model.mean", "model.instance", "model.component", "model.reconstruct", "model.project_out"]
+
+
+def derive_sources():
+    """the landmarked letters the routes start from (structure only, no menpo objects)."""
+    out = []
+    for s in L.image_specs():  # every image letter carries >= 1 group
+        out.append(("image",) + tuple(s))
+    for cls in L.SHAPE_CLASSES:
+        out.append(("shape", cls, 2, 2))
+        out.append(("shape", cls, 3, 1))
+    return out
+
+
+_DERIVE_LETTERS = {}
+
+
+def derive_letters(seed=0):
+    """("derive", family, spec..., route) for every source letter x every route that applies to its class."""
+    if "all" not in _DERIVE_LETTERS:
+        out = []
+        for src in derive_sources():
+            o = build_letter(("copy",) + src, seed)
+            for r in routes().values():
+                if r.applies(o):
+                    out.append(("derive",) + src + (r.name,))
+        for m in DERIVE_MODELS:
+            for rn in MODEL_ROUTES:
+                out.append(("derive", "model") + m + (rn,))
+        _DERIVE_LETTERS["all"] = out
+    return _DERIVE_LETTERS["all"]
+
+
+def lm_mutators(x):
+    out = ["lm_set_new", "lm_assign_manager"]
+    if x.has_landmarks:
+        out += ["lm_set_existing", "lm_del", "lm_edit_fetched", "lm_apply_inplace"]
+    return out
 
 
 # =================================================================================================
@@ -630,6 +803,8 @@ def mutate(x, name, seed):
         x.landmarks = new
     elif name == "apply_inplace":
         mt.Translation(0.5 + r.rand(nd)).apply_inplace(x)
+    elif name == "lm_apply_inplace":
+        mt.Translation(0.5 + r.rand(nd)).apply_inplace(mgr)
     elif name == "set_masked_pixels":
         v = np.array(x.as_vector(), copy=True)
         x.set_masked_pixels(((v + 1).astype(v.dtype) if v.dtype.kind in "iu" else (v * 0.5 + 0.3).astype(v.dtype)).reshape(x.n_channels, -1))
@@ -750,9 +925,22 @@ class C06(Check):
     def roots(self):
         n = self._lm_shards()
         out = [("lm", v, s, n) for v in ("empty", "pre") for s in range(n)]
-        return out + copy_letters()
+        return out + copy_letters() + derive_letters()
 
     def build(self, root):
+        if root[0] == "derive":
+            route = routes()[root[-1]]
+            keep = None
+            if root[1] == "model":
+                keep = build_model(root[2:4], self.seed)
+                o = keep.template_instance
+            else:
+                o = build_letter(("copy",) + tuple(root[1:-1]), self.seed)
+            before = obs6(o)
+            c = route.fn(o, keep, self.seed)
+            st = {"kind": "copy", "root": root, "o": o, "c": c, "route": route, "keep": keep, "obs_before": before}
+            st["obs"] = {"o": obs6(o), "c": obs6(c)}
+            return st
         if root[0] == "copy":
             o = build_letter(root, self.seed)
             c = o.copy()
@@ -786,9 +974,56 @@ class C06(Check):
 
     # ================================================================== (a)
     def _where(self, st):
+        if "route" in st:
+            return "derive:%s:%s" % (st["route"].name, type(st["o"]).__name__)
         return "copy:" + type(st["o"]).__name__
 
+    def _derive_check_root(self, st, root):
+        o, c, route = st["o"], st["c"], st["route"]
+        where = self._where(st)
+        fails = []
+        self.note("derived:" + route.name)
+        if c is o:
+            fails.append(Failure(where, "result-is-source", "the route returned its source object"))
+            return fails
+        d = obs_diff(st["obs_before"], st["obs"]["o"])
+        if d:
+            fails.append(Failure(where, "source-changed-by-route", d))
+        if not o.has_landmarks:
+            raise AssertionError("derive letter without landmarks: %r" % (root,))
+        if not c.has_landmarks:
+            fails.append(Failure(where, "landmarks-not-carried", "the source has %d groups, the result none" % o.landmarks.n_groups))
+            return fails
+        if c.landmarks is o.landmarks:
+            fails.append(Failure(where, "manager-object-shared", "result.landmarks is source.landmarks"))
+        for k in o.landmarks.keys():
+            if k in c.landmarks and c.landmarks[k] is o.landmarks[k]:
+                fails.append(Failure(where, "group-object-shared", "group %r is one object in source and result" % (k,)))
+                break
+        if list(c.landmarks.keys()) != list(o.landmarks.keys()):
+            fails.append(Failure(where, "group-names-or-order", "%r vs %r" % (list(o.landmarks.keys()), list(c.landmarks.keys()))))
+        elif route.lm_equal:
+            d = obs_diff(observe(o.landmarks), observe(c.landmarks))
+            if d:
+                fails.append(Failure(where, "landmarks-not-equal", d))
+            else:
+                self.note("derive:landmarks-equal")
+        if route.identical:
+            # route agreement: an identity route and copy() must give the same object
+            # (a MaskedImage is only defined under its mask: from_vector documents that nothing else is filled)
+            a, b = obs6(o.copy()), dict(st["obs"]["c"])
+            if _isa(o, "MaskedImage"):
+                a["pixels"], b["pixels"] = np.array(o.as_vector()), np.array(c.as_vector())
+            d = obs_diff(a, b)
+            if d:
+                fails.append(Failure(where, "route-disagrees-with-copy", d))
+            else:
+                self.note("derive:agrees-with-copy")
+        return fails
+
     def _copy_check_root(self, st, root):
+        if "route" in st:
+            return self._derive_check_root(st, root)
         o, c = st["o"], st["c"]
         fails = []
         fam = root[1]
@@ -821,9 +1056,12 @@ class C06(Check):
             return []
         out = []
         conts = []
+        derived = "route" in st
         for side in ("c", "o"):
             x = st[side]
             for path, kind, obj, parent in walk(x):
+                if derived and not path.startswith("._landmarks"):
+                    continue  # a route only promises ownership of the landmarks
                 if exempt(x, path):
                     self.note("exempt:" + type(x).__name__)
                     continue
@@ -837,7 +1075,7 @@ class C06(Check):
         out += conts
         if level == 0:
             for side in ("c", "o"):
-                out += [("m", side, name) for name in mutators(st[side])]
+                out += [("m", side, name) for name in (lm_mutators(st[side]) if derived else mutators(st[side]))]
         return out
 
     def _copy_apply(self, st, op, verify):
@@ -874,6 +1112,8 @@ class C06(Check):
                     undo_container(k, obj, tok)
             d = obs_diff(st["obs"][other], after)
             tag = "write" if kind == "w" else "container-write"
+            if "route" in st:
+                self.note("derive-%s:%s" % (tag, st["route"].name))
             if d:
                 fails.append(Failure(where, "%s-visible-in-%s:%s" % (tag, seen_in, norm_path(path)), "%s of %s at %s (%s): %s" % (tag, side, path, op[3], d)))
             self.note("%s:%s" % (tag, "changes-written-side" if obs_diff(st["obs"][side], mine) else "unobservable-on-written-side"))
@@ -885,6 +1125,8 @@ class C06(Check):
             changed = obs_diff(st["obs"][side], new) is not None
             st["obs"][side] = new
             self.note("mutator:%s:%s" % (name, "changed" if changed else "no-effect"))
+            if "route" in st:
+                self.note("derive-mutator:%s" % st["route"].name)
             if verify:
                 d = obs_diff(st["obs"][other], obs6(y))
                 if d:
@@ -1322,6 +1564,9 @@ class C06(Check):
             "trim_components", "increment",
         ):
             need.append("mutator:%s:changed" % name)
+        need += ["mutator:lm_apply_inplace:changed", "derive:landmarks-equal", "derive:agrees-with-copy"]
+        for rn in routes():
+            need += ["derived:" + rn, "derive-write:" + rn, "derive-container-write:" + rn, "derive-mutator:" + rn]
         out = ["outcome %s never produced" % n for n in need if not notes.get(n)]
         for k in ("exempt:TransformChain", "exempt:AlignmentAffine"):
             if not notes.get(k):
@@ -1335,6 +1580,9 @@ class C06(Check):
         return (
             "(a) every Copyable letter x every reachable array / sparse component / list / dict x {first,last[,mid]} element x "
             "{write into copy, write into original} and every public mutator on either side, observation of the other side exact; "
+            "(a') the same with the second object reached through every public route that derives a landmark-carrying object "
+            "(writes below _landmarks and landmark mutators only), plus manager / group identity, landmark equality and agreement "
+            "of identity routes with copy(); "
             "(b) breadth-first over landmark-manager histories of two owners, a derived owner, a detached manager copy and three "
             "pool values against an ordered-dict model, every stored group probed for write-independence in the step that stores it"
         )
@@ -1342,7 +1590,11 @@ class C06(Check):
     def alphabet_sizes(self):
         letters = copy_letters()
         fam = collections.Counter(r[1] for r in letters)
+        dl = derive_letters()
         return {
+            "derive_letters": len(dl),
+            "derive_routes": list(routes().keys()),
+            "derive_letters_by_route": dict(collections.Counter(r[-1] for r in dl)),
             "copy_letters": len(letters),
             "copy_letters_by_family": dict(fam),
             "lm_roots": 2 * self._lm_shards(),
@@ -1367,6 +1619,8 @@ class C06(Check):
             "(+ all edits and all queries)",
             "a pool value can be edited in place only once it has been assigned somewhere",
             "edits are +1.0 on the first coordinate; group comparison tolerance %g" % LM_TOL,
+            "derive routes: only ownership of the landmarks is demanded of a route (pixels / points may be views by documented "
+            "copy=False); geometric image routes (crop, warp, rescale, pyramid ...) belong to C01 and are not letters here",
         ]
 
 
